@@ -163,8 +163,8 @@ Proof.
     destruct (loop_iteration_limit <? z); [apply sim_abort|].
     apply sim_loop_iterations. intro i. unfold with_scope.
     apply sim_get_bind; intros c c' H.
-    assert (HS : current_scope c = current_scope c' /\ current_scope_nx c = current_scope_nx c') by (unfold E, core in H; inversion H; auto).
-    destruct HS as [H1 H2]. rewrite H1, H2.
+    assert (HS : current_scope c = current_scope c' /\ current_scope_nx c = current_scope_nx c' /\ next_macro_scope_id c = next_macro_scope_id c') by (unfold E, core in H; inversion H; auto).
+    destruct HS as (H1 & H2 & H3). rewrite H1, H2, H3.
     apply sim_bind; [apply sim_modify; intros; apply core_enter; assumption|intro].
     apply sim_bind; [apply sim_scope_symbol|intro].
     apply sim_finally.
